@@ -144,7 +144,11 @@ def from_decimal(data: decimal.Decimal):
         if not data.as_tuple().exponent:
             # integer
             return int(data)
-        return float(data)
+        number = float(data)
+        if (number == 0) != (data == 0) or number in (float("inf"), float("-inf")):
+            # beyond the range of a double (1E-400 would be written as 0.0): as text, like the js-unsafe numbers
+            return str(data)
+        return number
     # infinity / NaN
     return str(data)
 
